@@ -22,7 +22,7 @@ func init() {
 	Register(&Monitor{
 		ID:         "C06",
 		Level:      "exploration",
-		Exhaustive: []string{"deep", "long", "huge", "mixed", "fnargs", "utf8edge", "regexlits"},
+		Exhaustive: []string{"deep", "long", "huge", "mixed", "fnargs", "utf8edge", "regexlits", "predforms"},
 		Rule: "every recursive construct of the grammar nested to depth 10, 10^2, ... up to the tier's maximum ( ((((1)))), a[a[a[...]]], not(not(...)), -(-(...)), a/((((b)))) - the parseStep/parseSequence cycle -, a/(a/(a/(...))), unterminated a/((((, f(f(f(...))), (a|(a|(...))) ) and every iterative construct to length 3*10^k (a/a/..., 1+1+..., a|a|..., a or a ..., a[1][1]..., a//a..., f(1,1,...), -----1, long names, long strings, long numbers), each through Compile, CompileWithNS (nil, empty, bound, unbound maps) and MustCompile; " +
 			"every ORDERED PAIR of recursive constructs alternating (a[not(a[not(...)])], (a[(a[...])]), f(-(f(-(...)))), ...) to depth 6..1000 - a build step that repeats work per level turns such inputs into a hang; namespace maps with the empty string and malformed strings as keys; " +
 			"grammar-generated valid expressions and their truncations at every byte; every function name x every list of 0-3 arguments over 9 argument kinds (number, string, path, boolean call, invalid regex, parenthesised and negated literals, variable, comparison); seeded random token strings over the token alphabet plus arbitrary bytes (NUL, invalid UTF-8, non-ASCII name characters). The worker's maximum goroutine stack is lowered to 64 MiB so that unbounded recursion surfaces at depth ~10^5. " +
@@ -40,6 +40,7 @@ func init() {
 			{CPUBudget: 40, Name: "fuzz", N: tierN(1000, 40000), Run: c06Fuzz},
 			{CPUBudget: 40, Name: "fnargs", N: func(string) int { return len(xgen.AllFuncs) }, Run: c06FnArgs},
 			{CPUBudget: 40, Name: "utf8edge", N: func(string) int { return 160 }, Run: c06UTF8Edge},
+			{CPUBudget: 30, Name: "predforms", N: func(string) int { return len(c06PredCores) * len(c06PredWraps) }, Run: c06PredForms},
 			{CPUBudget: 30, Name: "regexlits", N: func(string) int { return len(c06RegexLits()) }, Run: c06RegexLit},
 		},
 	})
@@ -136,6 +137,10 @@ func c06Long(t string) []c06Spec {
 			c06Spec{Name: "spaces", Pre: " \t\n", Mid: "a", N: n},
 			c06Spec{Name: "../../..", Pre: "../", Mid: "..", N: n},
 			c06Spec{Name: "@a|@a...", Pre: "@a|", Mid: "@a", N: n},
+			c06Spec{Name: "a/(a,b)/(a,b)...", Pre: "", Mid: "a", Post: "/(a,b)", N: n},
+			c06Spec{Name: "//a/(a,b,c)/(a,b,c)...", Pre: "", Mid: "//a", Post: "/(a,b,c)", N: n},
+			c06Spec{Name: "a/(b)/(b)...", Pre: "", Mid: "a", Post: "/(b)", N: n},
+			c06Spec{Name: "a/(a,b)[1]/(a,b)[1]...", Pre: "", Mid: "a", Post: "/(a,b)[1]", N: n},
 			c06Spec{Name: "//a//a//a...", Pre: "//a", Mid: "//a", N: n},
 			c06Spec{Name: ".//a//b/../...", Pre: ".//a//b/../", Mid: ".", N: n},
 			c06Spec{Name: "//*//*...", Pre: "//*", Mid: "//@x", N: n},
@@ -469,4 +474,25 @@ func c06RegexLit(c *Case) {
 		show = show[:20] + fmt.Sprintf("...(%d bytes)", len(pat))
 	}
 	c.SampleEvery(13, func() interface{} { return map[string]interface{}{"family": "regexlits", "pattern": show} })
+}
+
+// c06PredForms: every small predicate core in every wrapper (parentheses to depth 3, unary minus, operators with
+// itself, a following / preceding second predicate), attached to a child step, a '//' step, a parenthesised path, an
+// attribute step and a step with an earlier predicate. The builder rewrites predicates by their SHAPE (positional,
+// last(), numeric, merge) - each shape in each spelling must come back from Compile.
+var c06PredCores = []string{"last()", "position()", "1", "last() - 1", "position() = last()", "position() < 3", "@x", "a", "not(a)", "'x'", "true()", "1 + 1", "last() div 2", "count(a)", "a | b", "a = 1", "position() mod 2", "-1", "1.5", "a[1]", ". = 'x'", "last() = 1 or a"}
+var c06PredWraps = []string{"%s", "(%s)", "((%s))", "(((%s)))", "-(%s)", "(%s) = 1", "1 = (%s)", "(%s) and (%s)", "(%s) or @y", "(%s) + 0", "not((%s))", "(%s)][(%s)", "@k][(%s)", "(%s)][@k", "((%s))][1", "1][((%s))", "boolean((%s))", "(%s) | a", "number((%s))", "string((%s))"}
+
+func c06PredForms(c *Case) {
+	core := c06PredCores[c.Index%len(c06PredCores)]
+	wrap := c06PredWraps[c.Index/len(c06PredCores)]
+	pred := strings.ReplaceAll(wrap, "%s", core)
+	for _, host := range []string{"a[%s]", "//a[%s]", "(a)[%s]", "@*[%s]", "a/b[%s]/c", "(//a | b)[%s]", "a[b[%s]]", "descendant::a[%s]", "../a[%s]", "a[%s]/@x", "count(a[%s])", "a[%s] = 1"} {
+		c.Count("predforms")
+		c.c06Check(strings.ReplaceAll(host, "%s", pred), "predforms")
+		if c.Violated() {
+			return
+		}
+	}
+	c.SampleEvery(23, func() interface{} { return map[string]interface{}{"family": "predforms", "predicate": pred} })
 }
